@@ -63,7 +63,7 @@ Value& OpNEGExpression::value(Context& ctx) const
     case Type::INTEGER:
       if (a1.isNull())
         return a1;
-      return LVAL1(Value(Integer(0 - *a1.integer())), a1);
+      return LVAL1(Value(Value::wrapNeg(*a1.integer())), a1);
     case Type::NUMERIC:
       if (a1.isNull())
         return a1;
